@@ -17,8 +17,11 @@ SERIES = ("feed_temperature", "feed_compositions", "permeate_composition", "perm
 @st.composite
 def program_spec(draw):
     kind = draw(st.sampled_from(["polynomial", "exponential", "logarithmic"]))
+    # offset: the programme need not pass through the stated initial temperature at t = 0 (the series still start at the
+    # stated temperature; the programme takes over from step 1)
     return {"type": kind, "t_end": draw(gen.uniform(273.0, 400.0)), "deg": draw(st.integers(0, 2)),
-            "w": draw(gen.uniform(-0.4, 0.4)), "c1": draw(gen.uniform(-1.0, 1.0)), "c0": draw(gen.uniform(40.0, 120.0))}
+            "w": draw(gen.uniform(-0.4, 0.4)), "c1": draw(gen.uniform(-1.0, 1.0)), "c0": draw(gen.uniform(40.0, 120.0)),
+            "offset": draw(st.one_of(st.just(0.0), gen.uniform(-15.0, 15.0)))}
 
 
 def materialise_program(spec, t_start, hours):
@@ -28,6 +31,7 @@ def materialise_program(spec, t_start, hours):
         return None
     h = max(hours, 1e-300)
     t_end = spec["t_end"]
+    t_start = min(400.0, max(273.0, t_start + spec.get("offset", 0.0)))
     if spec["type"] == "polynomial":
         if spec["deg"] == 0:
             co = [t_start]
